@@ -131,7 +131,41 @@ def _cond_multipleof_only(ctx, origin):
     return True, f"{f.short} runs only under MultipleOf._validate"
 
 
-JUSTIFIED_X1 = [
+def _format_values_are_text(call):
+    """The keyword values of a `.format(...)` call are strings by construction (repr()/_safe_repr()/str literals)."""
+    if not isinstance(call, ast.Call) or call.args:
+        return False
+    def text(e):
+        if isinstance(e, ast.Constant) and isinstance(e.value, str):
+            return True
+        return isinstance(e, ast.Call) and (dotted(e.func) or "").split(".")[-1] in ("repr", "_safe_repr", "join")
+    for k in call.keywords:
+        if k.arg is None:
+            if not (isinstance(k.value, ast.DictComp) and text(k.value.value)):
+                return False
+        elif not text(k.value):
+            return False
+    return True
+
+
+_TEXT = "rendering text converts no integer: "
+
+JUSTIFIED_RENDER = [
+    ("Pattern.error_message", lambda t: t == "repr(self.params['pattern'])", "ValueError",
+     _TEXT + "the pattern keyword is a string (metaschema: `pattern` has type string)", None),
+    ("AdditionalProperties.error_message", lambda t: ".format(properties=set(" in t, "ValueError",
+     _TEXT + "the set holds the declared property names", None),
+    ("ValidationError.combine", lambda t: t == "str(exc)", "ValueError",
+     _TEXT + "`exc` is an exception that was already built, str() returns its message", None),
+    ("FeatureNotImplementedError.unsupported_keywords", lambda t: t == "{keywords}", "ValueError",
+     _TEXT + "a subset of the constant set of unsupported keyword names", None),
+]
+
+
+JUSTIFIED_X1 = JUSTIFIED_RENDER + [
+    ("_PropertyDict.__init__", lambda t: t == "{bad_values}", "ValueError",
+     "part of the SchemaDefinitionError raise: within validation Element.__init__ is only called with `properties` "
+     "defaulted, so the setter returns at its not-passed test", _cond_no_properties_args),
     # (function short, construct predicate, exception, reason, side condition)
     ("CompositionElement.construct", lambda t: t.startswith("raise NotImplementedError"), "NotImplementedError",
      "only for the mode-less base class, which repository code never instantiates", _cond_modes),
@@ -187,8 +221,11 @@ def x1_core(ctx, res, roots, allowed, justified, x3_ok=True):
         if just is None and x3_ok and ".format(" in o.text and o.func.name == "error_message" \
                 and exc in ("KeyError", "IndexError", "ValueError"):
             x3 = ctx.rule_result("X3")
-            if not x3.violations():
-                just = "message template fields are covered by the keys passed (rule X3)"
+            # X3 settles the template (fields present, well formed); a ValueError can still come from rendering an
+            # integer beyond the int->str limit unless every value passed is text already
+            if not x3.violations() and (exc != "ValueError" or _format_values_are_text(o.node)):
+                just = "message template fields are covered by the keys passed (rule X3)" + \
+                    ("; every value passed is text already" if exc == "ValueError" else "")
         if just:
             res.justified(o.func, f"{o.text} -> {exc}", just, detail)
         else:
@@ -332,7 +369,9 @@ def _cond_typed_guard(ctx):
     return ("== 'object'" in src and "== 'array'" in src), "object/array handled before the table lookup"
 
 
-JUSTIFIED_X2 = [
+JUSTIFIED_X2 = JUSTIFIED_RENDER + [
+    ("_PropertyDict.__init__", lambda t: t == "{bad_values}", "ValueError",
+     "part of the SchemaDefinitionError raise: the parser only builds property dicts from _Property values", None),
     ("CompositionElement.__init__", lambda t: t.startswith("raise TypeError"), "TypeError",
      "anyOf/oneOf/allOf: [] is not metaschema-valid (minItems 1)", None),
     ("ObjectClassDict.__setitem__", lambda t: t.startswith("raise SchemaDefinitionError"), "SchemaDefinitionError",
@@ -430,8 +469,18 @@ def x3(ctx, res):
                             if isinstance(t, ast.Subscript) and norm(t.value) == f"{sp}.params" and isinstance(t.slice, ast.Constant):
                                 keys.add(t.slice.value)
             # base error_message must be `self.message.format(**self.params)`
-            body_ok = any(isinstance(x, ast.Return) and norm(x.value) == "self.message.format(**self.params)"
-                          for x in walk_own(emf.body))
+            def _fmt_of_params(e):
+                if not (isinstance(e, ast.Call) and norm(e.func) == "self.message.format" and not e.args
+                        and len(e.keywords) == 1 and e.keywords[0].arg is None):
+                    return False
+                v = e.keywords[0].value
+                if norm(v) == "self.params":
+                    return True
+                # the same keys with rendered values: {key: f(value) for key, value in self.params.items()}
+                return isinstance(v, ast.DictComp) and len(v.generators) == 1 and not v.generators[0].ifs \
+                    and norm(v.generators[0].iter) == "self.params.items()" and isinstance(v.generators[0].target, ast.Tuple) \
+                    and norm(v.key) == norm(v.generators[0].target.elts[0])
+            body_ok = any(isinstance(x, ast.Return) and _fmt_of_params(x.value) for x in walk_own(emf.body))
             if not body_ok:
                 raise AnalysisError("Validator.error_message is no longer `self.message.format(**self.params)`")
         elif emf is not None:
